@@ -74,6 +74,12 @@ def program(form, op, a, b):
         return "functie f(x) { x %s %s } f(%s)" % (op, B, A)
     if form == "FFusedLeft":
         return "functie f(x) { %s %s x } f(%s)" % (A, op, B)
+    if form == "FGlobalRightLit":
+        return "stel a = %s; a %s %s" % (A, op, B)
+    if form == "FGlobalLeftLit":
+        return "stel b = %s; %s %s b" % (B, A, op)
+    if form == "FGlobalInFunction":
+        return "stel g = %s; functie f() { %s %s g } f()" % (B, A, op)
     if form == "FAfterProcedure":
         return "functie noteer(x) { stel laatste = x }; functie leeg() { }; noteer(1); leeg(); stel a = %s; noteer(a); stel b = %s; leeg(); a %s b" % (A, B, op)
     if form in ("FComputed", "FComputedLeft"):
@@ -147,6 +153,8 @@ def run(ctx, log):
             ops = [arith_cmp[(a * 7 + b * 13) % 11], rng.choice(arith_cmp)]
         for sym, name in ops:
             cases.append(("FGeneric", sym, name, ("i", a), ("i", b)))
+            if a >= 0 and b >= 0:
+                cases.append((("FGlobalRightLit", "FGlobalLeftLit", "FGlobalInFunction")[(a + b) % 3], sym, name, ("i", a), ("i", b)))
             if b >= 0:
                 cases.append(("FFusedRight", sym, name, ("i", a), ("i", b)))
             if a >= 0:
@@ -318,7 +326,7 @@ def run(ctx, log):
             if py != exp:
                 ctx.violate("unsupported operand types must be a type error", source=srcs[i], observed=o, expected=exp)
             continue
-        form = "FGeneric" if f in ("FLocal", "FComputed", "FComputedLeft", "FAfterProcedure") else f
+        form = "FGeneric" if f in ("FLocal", "FComputed", "FComputedLeft", "FAfterProcedure", "FGlobalRightLit", "FGlobalLeftLit", "FGlobalInFunction") else f
         items.append("OC %s %s %s %s %s" % (form, name, desc_coq(a), desc_coq(b), term))
         idx.append(i)
     header = "From NL.Corr Require Import CorrOps.\nOpen Scope Z_scope.\nDefinition rtab : list (float * float * float) := [%s]." % rt
